@@ -394,6 +394,47 @@ of the statements -/
 theorem defaults_match_documentation :
     documentedGroupDefaults.all (fun kv => KV.Gen.Group.validateDefaults.lookup kv.1 == some kv.2) = true := by decide
 
+/-! ### the member id the coordinator assigned is kept until it is left -/
+
+/-- After a successful JoinGroup (`jm` = the member id of the answer) every failure before the generation exists — the
+leader's metadata read (`partsRes`), SyncGroup, OffsetFetch — makes `nextGeneration` return THAT member id with the error:
+`run` then rejoins with it (rebalance) or sends LeaveGroup for it (any other error) — it is never forgotten while the
+coordinator still holds it. -/
+theorem failure_after_join_keeps_member (c : Cfg) (s s1 s2 : St) (ev : Ev) (m : String) (e : Option Err)
+    (hev : (∃ er, er ≠ Err.unknownTopic ∧ ev = .partsRes (some er)) ∨ (∃ mi gi er, ev = .syncRes mi gi (some er)) ∨
+           (∃ er, ev = .fetchRes (some er)))
+    (h1 : step c s ev = some s1) (h2 : step c s1 (.nextGenRet m e) = some s2) :
+    m = s.jm ∧ s2.member = s.jm := by
+  have hpc : ∃ er, s1.pc = .retp s.jm (some er) := by
+    rcases hev with ⟨er, hne, rfl⟩ | ⟨mi, gi, er, rfl⟩ | ⟨er, rfl⟩
+    · simp only [step] at h1
+      split at h1
+      · cases er <;> first | (exact absurd rfl hne) | (cases h1; exact ⟨_, rfl⟩)
+      · cases h1
+    · simp only [step] at h1
+      split at h1
+      · cases h1; exact ⟨_, rfl⟩
+      · cases h1
+    · simp only [step] at h1
+      split at h1
+      · cases h1; exact ⟨_, rfl⟩
+      · cases h1
+  obtain ⟨er, hpc⟩ := hpc
+  simp only [step] at h2
+  split at h2
+  · rename_i hr
+    have hm : m = s.jm := by
+      unfold returnsNow at hr
+      rw [hpc] at hr
+      simp at hr
+      exact hr.1.symm
+    refine ⟨hm, ?_⟩
+    subst hm
+    cases e with
+    | none => cases h2; rfl
+    | some x => cases x <;> cases h2 <;> rfl
+  · cases h2
+
 /-! ### how long an answer is waited for (timeoutCoordinator) -/
 
 /-- every coordinator call has a deadline of at least `Timeout`; only JoinGroup (+ RebalanceTimeout) and SyncGroup
